@@ -185,6 +185,11 @@ class Trellis34:
                 matches
             ), f"Trellis data corrupted, index {i} constellation point {constellation_points[i]}"
 
+        # last tribit is the flush (000) the encoder appends, no encoder state emits anything else there
+        assert (
+            out[48] == 0
+        ), f"Trellis data corrupted, index 48 constellation point {constellation_points[48]} is not a flush tribit"
+
         return out
 
     @staticmethod
